@@ -461,7 +461,8 @@ def register(reg, prog):
         evs_ = s.log[len(snap.log):] if snap is not None else s.log
         return [('no-transmission-after-the-last-iteration', B(not evs_))]
 
-    reg.contract(MM + '._continue_backlog', params={'remote': Opt(Ref('Remote'))}, properties=['C14', 'C03'],
+    reg.contract(MM + '._continue_backlog', params={'remote': Opt(Ref('Remote'))}, properties=['C14', 'C03', 'C08'],   # C08: notifications queued behind an exchange go out in the order they were produced
+                
                  requires=['mm_inv(self, remote)', 'remote is not None', 'remote in self._backlogs', 'not exists_active(self, remote)'],
                  raises={}, only_raises=True, modifies=[REC, ACT, BL, '*lists'],
                  invariants={0: ['mm_inv(self, remote)', 'remote in self._backlogs', 'remote is not None']},
